@@ -47,12 +47,18 @@ func (vc *VC) scriptMode(o *Oblig, prelude string, axioms []string, wantModel bo
 		body.WriteByte('\n')
 	}
 	_ = o.nDecl
+	var defs []*unaryDef
+	var kept []string
 	emit := func(a string) {
 		if stripped {
+			if d := asUnaryDef(a); d != nil {
+				defs = append(defs, d)
+			}
 			a = stripAssumption(a)
 			if a == "true" {
 				return
 			}
+			kept = append(kept, a)
 		}
 		body.WriteString("(assert " + a + ")\n")
 	}
@@ -67,15 +73,41 @@ func (vc *VC) scriptMode(o *Oblig, prelude string, axioms []string, wantModel bo
 			emit(a)
 		}
 	}
-	vis := vc.assum[:o.nAssum]
+	vis := append([]string(nil), vc.assum[:o.nAssum]...)
+	if len(vc.assumTags) > 0 && o.Kind != "canary" && !hasProp(o.Props, "*") {
+		kept := vis[:0]
+		for i, a := range vc.assum[:o.nAssum] {
+			if tags, ok := vc.assumTags[i]; ok {
+				shared := false
+				for _, t := range tags {
+					if t != "scoped" && hasProp(o.Props, t) {
+						shared = true
+					}
+				}
+				if !shared {
+					continue
+				}
+			}
+			kept = append(kept, a)
+		}
+		vis = kept
+	}
 	if shuffleSeed != 0 {
 		// robustness experiment: the same assumptions in a pseudo-random order (no effect on meaning)
-		vis = append([]string(nil), vis...)
 		r := rand.New(rand.NewSource(int64(shuffleSeed)))
 		r.Shuffle(len(vis), func(i, j int) { vis[i], vis[j] = vis[j], vis[i] })
 	}
 	for _, a := range vis {
 		emit(a)
+	}
+	if stripped && len(defs) > 0 {
+		// the quantifier-free weakening keeps the ground instances of unary definitions (opaque spec predicates such as
+		// isIdName) at the terms that occur: cvc5 then decides string goals that need the definition
+		for _, inst := range groundInstances(defs, append(kept, stripAssumption("(not "+o.Goal+")")), 200) {
+			if inst != "true" {
+				body.WriteString("(assert " + inst + ")\n")
+			}
+		}
 	}
 	body.WriteString("(assert " + o.Guard + ")\n")
 	body.WriteString("(assert (not " + o.Goal + "))\n")
@@ -149,6 +181,44 @@ func runSolver(cfg solverCfg, file string, timeout time.Duration) (status string
 		return "timeout", out, ms
 	}
 	return "error", out, ms
+}
+
+// dischargeInduct decides a lemma by structural induction on the ghost datatype: cvc5 --quant-ind on the quantified script.
+func (pr *Prover) dischargeInduct(vc *VC, o *Oblig, prelude string, axioms []string) *Verdict {
+	v := &Verdict{Oblig: o}
+	if len(vc.errs) > 0 {
+		v.Status = "error"
+		v.Output = "contract error: " + strings.Join(vc.errs, "; ")
+		return v
+	}
+	script, _ := vc.script(o, prelude, axioms, false)
+	v.SMTBytes = len(script)
+	file := filepath.Join(pr.workdir, sanitize(o.Name)+".induct.smt2")
+	if err := os.WriteFile(file, []byte("(set-logic ALL)\n"+script), 0o644); err != nil {
+		v.Status = "error"
+		v.Output = err.Error()
+		return v
+	}
+	v.Script = file
+	cfg := solverCfg{"cvc5/quant-ind", []string{"cvc5", "--lang=smt2", "--strings-exp", "--quant-ind"}}
+	st, out, ms := runSolver(cfg, file, pr.timeout)
+	v.Ms = ms
+	v.Tried = append(v.Tried, cfg.name+":"+st)
+	switch st {
+	case "unsat":
+		v.Status = "proved"
+		v.Backend = cfg.name
+		if !pr.keep {
+			os.Remove(file)
+		}
+	case "error":
+		v.Status = "error"
+		v.Output = cfg.name + ": " + out
+	default:
+		v.Status = "failed-unknown"
+		v.Output = out
+	}
+	return v
 }
 
 type Prover struct {
@@ -283,7 +353,11 @@ func (pr *Prover) discharge(vc *VC, o *Oblig, prelude string, axioms []string) *
 	if proved {
 		if pr.tier == "thorough" && o.Kind != "canary" {
 			// cross-check with the other z3 version: "sat" from it contradicts the proof (engine error, not a verdict)
-			st, out, ms := runSolver(cfgs[1], file, pr.timeout)
+			ct := pr.timeout
+			if ct > 10*time.Second {
+				ct = 10 * time.Second // the cross-check only looks for a contradicting "sat"; it need not finish
+			}
+			st, out, ms := runSolver(cfgs[1], file, ct)
 			v.Ms += ms
 			v.Tried = append(v.Tried, "cross:"+cfgs[1].name+":"+st)
 			if st == "sat" && !quant {
